@@ -316,3 +316,11 @@ def seq_eq(xs: List[int], ys: List[int]) -> bool:
 
 def str_index_loop_free(s: str) -> str:
     return s[0] + s[-1] if len(s) >= 2 else s * 1 if False else s
+
+
+def dict_comp_keys(xs: List[str], flag: bool) -> Dict[str, bool]:
+    return {**{x: False for x in xs}, **{x: flag for x in xs[:1]}}
+
+
+def dict_display_merge(d: Dict[str, int], k: str) -> Dict[str, int]:
+    return {**d, k: 7, **{"z": 1}}
